@@ -55,6 +55,10 @@ def main(argv=None):
     s.add_argument('--props', default=','.join(kernel.PROPS))
     s.add_argument('--seeds', type=int, default=300)
     s.add_argument('--tier', default='quick')
+    sd = sub.add_parser('selftest-dump')
+    sd.add_argument('prop')
+    sd.add_argument('n', type=int)
+    sd.add_argument('--tier', default='quick')
     g = sub.add_parser('case')
     g.add_argument('prop')
     g.add_argument('seed', type=int)
@@ -75,6 +79,9 @@ def main(argv=None):
             from dsim import selftest
             return selftest.determinism(
                 a.props.split(','), a.seeds, a.tier)
+        if a.cmd == 'selftest-dump':
+            from dsim import selftest
+            return selftest.dump(a.prop.upper(), a.n, a.tier)
         if a.cmd == 'case':
             mod = kernel.prop_module(a.prop.upper())
             case = mod.gen_case(a.seed, a.tier, a.index) if getattr(
